@@ -28,6 +28,7 @@ type Obligation struct {
 	Inputs []string               // names of the SMT constants that are function inputs (for replay)
 	Bounded string                // non-empty => this is a bounded stand-in, never counted as proved
 	Lean    string                // non-empty => an inductive lemma: discharged by checking this theorem with Lean 4 + Mathlib
+	GetValues []*Term             // replay: ask the solver for the values of these terms in its model (get-value)
 
 	// results
 	Status  string // unsat(proved) sat unknown timeout error
@@ -150,6 +151,9 @@ func (o *Obligation) SMT() string {
 		collect(a, d, map[string]bool{})
 	}
 	collect(o.Goal, d, map[string]bool{})
+	for _, g := range o.GetValues {
+		collect(g, d, map[string]bool{})
+	}
 	var b strings.Builder
 	b.WriteString("(set-option :produce-models true)\n(set-logic ALL)\n")
 	fmt.Fprintf(&b, "; obligation %s\n", o.Name)
@@ -250,6 +254,14 @@ func (o *Obligation) SMT() string {
 		fmt.Fprintf(&b, "(assert %s)\n", rn(a.Key()))
 	}
 	fmt.Fprintf(&b, "(assert (not %s))\n", rn(o.Goal.Key()))
+	if len(o.GetValues) > 0 {
+		b.WriteString("(check-sat)\n(get-value (")
+		for _, g := range o.GetValues {
+			b.WriteString(" " + rn(g.Key()))
+		}
+		b.WriteString("))\n")
+		return b.String()
+	}
 	b.WriteString("(check-sat)\n(get-model)\n")
 	return b.String()
 }
@@ -517,4 +529,125 @@ func leanCheck(theorem string) (bool, string, float64) {
 		return false, "theorem " + theorem + " is not stated in " + leanFile, leanSecs
 	}
 	return true, "lean " + leanFile + ": all theorems checked (" + theorem + ")", leanSecs
+}
+
+// QueryValues re-solves the obligation with extra assumptions and returns the model values of the
+// given integer terms, in order (nil when the query is not sat within the timeout).
+func (o *Obligation) QueryValues(extra []*Term, terms []*Term, timeout int) []*big.Int {
+	o2 := *o
+	o2.Name = o.Name + "~values"
+	o2.Assume = append(append([]*Term(nil), o.Assume...), extra...)
+	o2.GetValues = terms
+	dir := filepath.Join(workDir, "q")
+	_ = os.MkdirAll(dir, 0o755)
+	file := filepath.Join(dir, fileSafe.ReplaceAllString(o2.Name, "_")+".smt2")
+	if err := os.WriteFile(file, []byte(o2.SMT()), 0o644); err != nil {
+		return nil
+	}
+	st, out, _ := runSolver(context.Background(), solvers[0], file, timeout)
+	if st != "sat" {
+		return nil
+	}
+	i := strings.Index(out, "\n")
+	if i < 0 {
+		return nil
+	}
+	vals := parseGetValue(out[i+1:])
+	if len(vals) != len(terms) {
+		return nil
+	}
+	return vals
+}
+
+// parseGetValue reads ((t1 v1) (t2 v2) ...) and returns the values in order.
+func parseGetValue(s string) []*big.Int {
+	// tokenise
+	var toks []string
+	for i := 0; i < len(s); {
+		c := s[i]
+		switch {
+		case c == '(' || c == ')':
+			toks = append(toks, string(c))
+			i++
+		case c == ' ' || c == '\n' || c == '\t' || c == '\r':
+			i++
+		case c == '|':
+			j := strings.IndexByte(s[i+1:], '|')
+			if j < 0 {
+				return nil
+			}
+			toks = append(toks, s[i:i+j+2])
+			i += j + 2
+		default:
+			j := i
+			for j < len(s) && !strings.ContainsRune("() \n\t\r", rune(s[j])) {
+				j++
+			}
+			toks = append(toks, s[i:j])
+			i = j
+		}
+	}
+	pos := 0
+	var skip func() bool // skips one s-expression
+	skip = func() bool {
+		if pos >= len(toks) {
+			return false
+		}
+		if toks[pos] != "(" {
+			pos++
+			return true
+		}
+		pos++
+		for pos < len(toks) && toks[pos] != ")" {
+			if !skip() {
+				return false
+			}
+		}
+		pos++
+		return true
+	}
+	val := func() *big.Int {
+		if pos >= len(toks) {
+			return nil
+		}
+		if toks[pos] == "(" {
+			// (- n)
+			if pos+3 < len(toks) && toks[pos+1] == "-" && toks[pos+3] == ")" {
+				v, ok := new(big.Int).SetString(toks[pos+2], 10)
+				pos += 4
+				if !ok {
+					return nil
+				}
+				return v.Neg(v)
+			}
+			return nil
+		}
+		v, ok := new(big.Int).SetString(toks[pos], 10)
+		pos++
+		if !ok {
+			return nil
+		}
+		return v
+	}
+	if pos >= len(toks) || toks[pos] != "(" {
+		return nil
+	}
+	pos++
+	var out []*big.Int
+	for pos < len(toks) && toks[pos] == "(" {
+		pos++
+		if !skip() { // the term
+			return nil
+		}
+		v := val()
+		if v == nil {
+			return nil
+		}
+		out = append(out, v)
+		if pos >= len(toks) || toks[pos] != ")" {
+			return nil
+		}
+		pos++
+	}
+	return out
 }
